@@ -125,9 +125,9 @@ pub fn judge_any(case: &[u8], acc: &mut Acc) {
 
 pub fn run(run: &Run) {
     run.explore_with(&AddrValues { per_group: true, with_unix: false }, judge);
-    let k = run.tier.pick(3, 4);
+    let k = run.tier.pick(4, 5);
     run.explore_with(&crate::universe::v1::tcp4_universe(k), judge_parsed);
     run.explore_with(&crate::universe::v1::tcp6_universe(k), judge_parsed);
-    run.explore_with(&crate::universe::v1::unknown_universe(4), judge_parsed);
+    run.explore_with(&crate::universe::v1::unknown_universe(6), judge_parsed);
     run.explore_with(&crate::universe::v1::len_universe(), judge_parsed);
 }
